@@ -97,10 +97,11 @@ class Chain(BaseGridder):
             Returns this estimator instance for chaining operations.
 
         """
-        self.region_ = get_region(coordinates[:2])
+        region = get_region(coordinates[:2])
         args = coordinates, data, weights
         for _, step in self.steps:
             args = step.filter(*args)
+        self.region_ = region
         return self
 
     def predict(self, coordinates):
